@@ -41,6 +41,10 @@ def canon(v):
     import pandas as pd
     if isinstance(v, pd.Series):
         return "v:" + ",".join(f"{int(i)}={fs(F(float(x)))}" for i, x in zip(v.index, v.values))
+    if isinstance(v, pd.DataFrame):
+        return "f:" + "|".join(f"{c}[" + ",".join(f"{int(i)}={fs(F(float(x)))}" for i, x in zip(v.index, v[c].values)) + "]" for c in v.columns)
+    if isinstance(v, np.ndarray):
+        return "a:" + ",".join(fs(F(float(x))) for x in v)
     if isinstance(v, (list, tuple)):
         return "l:" + ";".join(canon(x) for x in v)
     if isinstance(v, (int, float, np.floating, np.integer)):
@@ -58,6 +62,14 @@ def parse_val(s: str):
     if s.startswith("l:"):
         body = s[2:]
         return ("l", [parse_val(e) for e in body.split(";")] if body else [])
+    if s.startswith("f:"):
+        cols = []
+        for c in s[2:].split("|"):
+            name, body = c[:-1].split("[")
+            cols.append((name, [(int(e.split("=")[0]), F(e.split("=")[1])) for e in body.split(",")] if body else []))
+        return ("f", cols)
+    if s.startswith("a:"):
+        return ("a", [F(e) for e in s[2:].split(",")] if s[2:] else [])
     return ("?", s)
 
 
@@ -74,7 +86,37 @@ def val_eq(a, b, exact: bool) -> bool:
         return len(a[1]) == len(b[1]) and all(i == j and (x == y if exact else close(x, y)) for (i, x), (j, y) in zip(a[1], b[1]))
     if a[0] == "l":
         return len(a[1]) == len(b[1]) and all(val_eq(x, y, exact) for x, y in zip(a[1], b[1]))
+    if a[0] == "f":
+        return len(a[1]) == len(b[1]) and all(n == m and val_eq(("v", x), ("v", y), exact) for (n, x), (m, y) in zip(a[1], b[1]))
+    if a[0] == "a":
+        return len(a[1]) == len(b[1]) and all((x == y if exact else close(x, y)) for x, y in zip(a[1], b[1]))
     return False
+
+
+def cells(v):
+    """(label | None, number) for every number in a numeric value"""
+    if v[0] == "s":
+        return [(None, v[1])]
+    if v[0] == "v":
+        return list(v[1])
+    if v[0] == "a":
+        return [(None, x) for x in v[1]]
+    if v[0] == "f":
+        return [c for _, col in v[1] for c in col]
+    return []
+
+
+def vmap(v, g):
+    """apply g(label, x) to every number of a numeric value"""
+    if v[0] == "s":
+        return ("s", g(None, v[1]))
+    if v[0] == "v":
+        return ("v", [(i, g(i, x)) for i, x in v[1]])
+    if v[0] == "a":
+        return ("a", [g(None, x) for x in v[1]])
+    if v[0] == "f":
+        return ("f", [(n, [(i, g(i, x)) for i, x in col]) for n, col in v[1]])
+    raise ValueError(v[0])
 
 
 # ---------------------------------------------------------------------------- reference effects (Fractions)
@@ -86,25 +128,35 @@ def ref_gen(eff, idx, a):
     return ("v", [(i, b + c * i + d * a) for i in idx])
 
 
+def ref_frame(eff, idx, a):
+    _, b, c, d, k = eff.split(":")
+    b, c, d = fr(b), fr(c), fr(d)
+    return ("f", [(f"c{j}", [(i, (b + F(j, 4)) + c * i + d * a) for i in idx]) for j in range(int(k))])
+
+
 def ref_eff(eff, idx, a, prev):
-    """the probe's effect over exact rationals; also yields every intermediate (for the exactness check)"""
+    """the probe's effect over exact rationals"""
     k = eff.split(":")[0]
     if k == "gen":
         return ref_gen(eff, idx, a)
     if k == "lgen":
         return ("l", [ref_gen(eff, idx, a)])
+    if k == "fgen":
+        return ref_frame(eff, idx, a)
+    if k == "lfgen":
+        return ("l", [ref_frame(eff, idx, a)])
+    if k == "agen":
+        return ("a", [x for _, x in ref_gen(eff, idx, a)[1]])
     if k == "mark":
         return ("l", [("s", fr(eff.split(":")[1]))])
     if k == "app":
         return ("l", list(prev[1]) + [("s", fr(eff.split(":")[1]))])
     if k == "sq":
-        return ("s", prev[1] * prev[1]) if prev[0] == "s" else ("v", [(i, x * x) for i, x in prev[1]])
+        return vmap(prev, lambda i, x: x * x)
     if k == "aff":
         _, p, q, r, s = eff.split(":")
         p, q, r, s = fr(p), fr(q), fr(r), fr(s)
-        if prev[0] == "s":
-            return ("s", p * prev[1] + q + s * a)
-        return ("v", [(i, p * x + q + r * i + s * a) for i, x in prev[1]])
+        return vmap(prev, lambda i, x: p * x + q + s * a if i is None else p * x + q + r * i + s * a)
     raise ValueError(eff)
 
 
@@ -112,18 +164,21 @@ def intermediates(eff, idx, a, prev):
     """every partial result the float evaluation of the probe goes through"""
     k = eff.split(":")[0]
     out = []
-    if k in ("gen", "lgen"):
-        _, b, c, d = eff.split(":")
-        b, c, d = fr(b), fr(c), fr(d)
-        for i in (idx if idx is not None else [0]):
-            out += [c * i, b + c * i, d * a, b + c * i + d * a, b + d * a]
+    if k in ("gen", "lgen", "agen", "fgen", "lfgen"):
+        b, c, d = (fr(x) for x in eff.split(":")[1:4])
+        ncol = int(eff.split(":")[4]) if k in ("fgen", "lfgen") else 1
+        for j in range(ncol):
+            bj = b + F(j, 4)
+            for i in (idx if idx is not None else [0]):
+                out += [bj, c * i, bj + c * i, d * a, bj + c * i + d * a, bj + d * a]
     elif k == "aff":
         _, p, q, r, s = eff.split(":")
         p, q, r, s = fr(p), fr(q), fr(r), fr(s)
-        for i, x in ([(0, prev[1])] if prev[0] == "s" else prev[1]):
+        for i, x in cells(prev):
+            i = 0 if i is None else i
             out += [p * x, p * x + q, r * i, p * x + q + r * i, s * a, p * x + q + r * i + s * a, p * x + q + s * a]
     elif k == "sq":
-        out += [x * x for _, x in ([(0, prev[1])] if prev[0] == "s" else prev[1])]
+        out += [x * x for _, x in cells(prev)]
     return out
 
 
@@ -132,10 +187,28 @@ def is_exact(x: F) -> bool:
     return d & (d - 1) == 0 and abs(x.numerator).bit_length() <= 48 and d.bit_length() <= 48
 
 
+def ref_rescale(v, steps):
+    """annual value · step / year: the row's own step for indexed values (Series, DataFrame), the global step for
+    values without an index (number, array)"""
+    return vmap(v, lambda i, x: x * F(steps["g"] if i is None else steps["s"][i], YEAR_NS))
+
+
 def ref_union(items):
     """1 - prod(1 - p) with scalar/Series broadcasting; a single value is returned as it is"""
     if len(items) == 1:
         return items[0]
+    if any(it[0] == "f" for it in items):
+        first = next(it for it in items if it[0] == "f")
+        out = []
+        for cpos, (name, col) in enumerate(first[1]):
+            ncol = []
+            for pos, (lab, _) in enumerate(col):
+                prod = F(1)
+                for it in items:
+                    prod *= 1 - (it[1] if it[0] == "s" else it[1][cpos][1][pos][1])
+                ncol.append((lab, 1 - prod))
+            out.append((name, ncol))
+        return ("f", out)
     labels = next((list(i for i, _ in it[1]) for it in items if it[0] == "v"), None)
     if labels is None:
         prod = F(1)
@@ -187,6 +260,12 @@ def _run(case):
         if k in ("gen", "lgen"):
             v = (c[0] + c[2] * a) if idx is None else pd.Series([c[0] + c[1] * int(i) + c[2] * a for i in idx], index=idx, dtype=float)
             return v if k == "gen" else [v]
+        if k in ("fgen", "lfgen"):
+            v = pd.DataFrame({f"c{j}": [(c[0] + j / 4) + c[1] * int(i) + c[2] * a for i in idx] for j in range(int(c[3]))},
+                             index=idx, dtype=float)
+            return v if k == "fgen" else [v]
+        if k == "agen":
+            return np.array([c[0] + c[1] * int(i) + c[2] * a for i in idx], dtype=float)
         if k == "mark":
             return [c[0]]
         if k == "app":
@@ -194,6 +273,11 @@ def _run(case):
         if k == "sq":
             return prev * prev
         if k == "aff":
+            if isinstance(prev, pd.DataFrame):
+                return pd.DataFrame({col: [c[0] * float(x) + c[1] + c[2] * int(i) + c[3] * a for i, x in zip(prev.index, prev[col].values)]
+                                     for col in prev.columns}, index=prev.index, dtype=float)
+            if isinstance(prev, np.ndarray):
+                return np.array([c[0] * float(x) + c[1] + c[3] * a for x in prev], dtype=float)
             if isinstance(prev, pd.Series):
                 return pd.Series([c[0] * float(x) + c[1] + c[2] * int(i) + c[3] * a for i, x in zip(prev.index, prev.values)],
                                  index=prev.index, dtype=float)
@@ -227,7 +311,7 @@ def _run(case):
                 rec = {"op": act["op"], "pipe": act["pipe"], "comp": self.name, "tag": act.get("tag", "src:" + self.name)}
                 try:
                     if act["op"] == "mod":
-                        role = "list-mod" if act["eff"].startswith("gen") else "replace-mod"
+                        role = "list-mod" if act["eff"].split(":")[0] in ("gen", "fgen") else "replace-mod"
                         b.value.register_value_modifier(act["pipe"], mk_probe(act["tag"], act["eff"], role))
                     else:
                         src = mk_probe(act["tag"], act["eff"], "source")
@@ -353,15 +437,22 @@ class C14(Prop):
 
     # ------------------------------------------------------------------ generation
     def _pipeline(self, rng, name, exact, ids):
-        kind = rng.choice(["num", "num", "rate", "marks", "list", "list"])
+        kind = rng.choice(["num", "num", "rate", "rate", "marks", "list", "list"])
+        # what the numeric callables return: a Series (or a number when called without index), a DataFrame with several
+        # values per simulant, or a numpy array (no index)
+        shape = rng.choice(["series", "series", "frame", "frame", "array"]) if kind in ("num", "rate") else \
+            rng.choice(["series", "series", "frame"]) if kind == "list" else "series"
+        ncol = rng.choice([2, 2, 3])
         nm = rng.choice([0, 1, 2, 3, 3, 4, 5, 6])
         q = (lambda lo, hi, den: fs(F(rng.randint(lo * den, hi * den), den))) if exact else \
             (lambda lo, hi, den: fs(F(round(rng.uniform(lo, hi), 3))))
         acts = []
         if kind in ("num", "rate"):
             post = "rescale" if kind == "rate" else rng.choice(["none", "none", "rescale", "c:aff:2:1:0:0", "c:sq"])
+            g = {"series": "gen", "frame": "fgen", "array": "agen"}[shape]
             src = {"op": "src", "pipe": name, "comb": "replace", "post": post,
-                   "eff": f"gen:{q(0, 3, 4)}:{q(0, 1, 4)}:{q(0, 1, 2)}", "via": "rate" if kind == "rate" and rng.random() < 0.6 else "value"}
+                   "eff": f"{g}:{q(0, 3, 4)}:{q(0, 1, 4)}:{q(0, 1, 2)}" + (f":{ncol}" if shape == "frame" else ""),
+                   "via": "rate" if kind == "rate" and rng.random() < 0.6 else "value"}
             nsq = 0
             for _ in range(nm):
                 if rng.random() < 0.3 and nsq < 2:
@@ -372,7 +463,7 @@ class C14(Prop):
                     eff = f"aff:{p}:{q(-2, 2, 4)}:{rng.choice(['0', '0', q(0, 1, 4)])}:{rng.choice(['0', q(0, 1, 2)])}"
                 acts.append({"op": "mod", "pipe": name, "eff": eff})
         elif kind == "marks":
-            post = rng.choice(["none", "c:app:99"])
+            post = rng.choice(["none", "none", "c:app:99", "c:app:99", "rescale"])     # rescale of a Python list: the code raises
             src = {"op": "src", "pipe": name, "comb": "replace", "post": post, "eff": "mark:0", "via": "value"}
             for _ in range(nm):
                 acts.append({"op": "mod", "pipe": name, "eff": "app:1"})     # marker filled in below
@@ -380,9 +471,13 @@ class C14(Prop):
             post = rng.choice(["none", "union", "union", "c:app:99"])
             pq = (lambda: fs(F(rng.randint(0, 8), 8))) if exact else (lambda: fs(F(round(rng.uniform(0, 1), 3))))
             pc = (lambda: rng.choice(["0", "0", "1/16"])) if exact else (lambda: rng.choice(["0", fs(F(round(rng.uniform(0, 0.05), 3)))]))
-            src = {"op": "src", "pipe": name, "comb": "list", "post": post, "eff": f"lgen:{pq()}:{pc()}:0", "via": "value"}
+            if shape == "frame":
+                pq = (lambda: fs(F(rng.randint(0, 4), 8))) if exact else (lambda: fs(F(round(rng.uniform(0, 0.5), 3))))   # + j/4 per column
+            tail = f":{ncol}" if shape == "frame" else ""
+            src = {"op": "src", "pipe": name, "comb": "list", "post": post,
+                   "eff": f"{'lfgen' if shape == 'frame' else 'lgen'}:{pq()}:{pc()}:0{tail}", "via": "value"}
             for _ in range(nm):
-                acts.append({"op": "mod", "pipe": name, "eff": f"gen:{pq()}:{pc()}:0"})
+                acts.append({"op": "mod", "pipe": name, "eff": f"{'fgen' if shape == 'frame' else 'gen'}:{pq()}:{pc()}:0{tail}"})
         for a in acts:
             ids[0] += 1
             a["tag"] = f"m{ids[0]}"
@@ -395,7 +490,7 @@ class C14(Prop):
             # a second source with a different effect and post-processor (must be rejected, the first one stays)
             alt = {"num": "gen:5:0:0", "rate": "gen:5:0:0", "marks": "mark:7", "list": "lgen:1/2:0:0"}[kind]
             sources = [src, dict(src, eff=alt, tag="src2", post="none", via="value")]
-        return kind, sources, acts
+        return kind + ("" if shape == "series" else ":" + shape), sources, acts
 
     def generate(self, rng: random.Random, i: int, tier: str):
         exact = rng.random() < 0.7
@@ -503,6 +598,18 @@ class C14(Prop):
                               [s("p1", "replace", "rescale", "gen:3/4:0:1")]],
                     "calls": [c("p0", [3, 1, 0, 2]), c("p0", [3, 1, 0, 2], after=2), c("p0", [2, 3], skip=True, after=1),
                               c("p1", None, after=1), c("p0", [0, 2], after=2, where="listener"), c("p1", None, after=2, skip=True)]})
+        # several rates per simulant (DataFrame) and a numpy array as rate values, per-simulant steps all different from the global
+        # step, permuted / partial requests; a Python list as a rate (the code raises)
+        out.append({"stream": "exact", "pop": 4, "min_step_ns": year8, "mults": [2, 3, 4, 2], "driver_pos": 0,
+                    "comps": [[s("p0", "replace", "rescale", "fgen:1/2:1/4:0:2", via="rate"), m("p0", "aff:2:0:1/4:0", "m1")],
+                              [s("p1", "replace", "rescale", "agen:1/2:1/4:0"), s("p2", "replace", "rescale", "mark:1"), m("p2", "app:2", "m2"),
+                               s("p3", "replace", "rescale", "fgen:1:0:0:3")]],
+                    "calls": [c("p0", [3, 1, 0, 2]), c("p0", [2, 3], after=1), c("p0", [1], skip=True), c("p1", [2, 0, 1]), c("p2", [0]),
+                              c("p2", [0], skip=True), c("p3", [1, 2], after=2, where="listener"), c("p3", [], after=1)]})
+        # union of DataFrames
+        out.append({"stream": "exact", "pop": 3, "min_step_ns": year8, "mults": None, "driver_pos": 0,
+                    "comps": [[s("p0", "list", "union", "lfgen:1/8:1/16:0:2"), m("p0", "fgen:1/4:0:0:2", "m1"), m("p0", "fgen:0:1/16:0:2", "m2")]],
+                    "calls": [c("p0", [2, 0, 1]), c("p0", [1], skip=True)]})
         # union of four contributions incl. 0 and 1; singleton; skip; custom post on a list
         out.append({"stream": "exact", "pop": 2, "min_step_ns": year8, "mults": None, "driver_pos": 0,
                     "comps": [[m("p0", "gen:1/4:1/16:0", "m1"), s("p0", "list", "union", "lgen:1/2:0:0"), m("p0", "gen:0:0:0", "m2"),
@@ -592,19 +699,19 @@ class C14(Prop):
             elif post == "union":
                 v = ref_union(v[1])
                 if check:
-                    for x in ([v[1]] if v[0] == "s" else [y for _, y in v[1]]):
+                    for _, x in cells(v):
                         if not is_exact(x):
                             raise _Inexact()
             elif post == "rescale":
+                if v[0] == "l":
+                    return None         # a Python list reaches `value.mul`: the call raises
                 if steps is None:       # exactness check at generation time: any step i/16 year, i <= 16·3
                     if check:
-                        for x in ([v[1]] if v[0] == "s" else [y for _, y in v[1]]):
+                        for _, x in cells(v):
                             if not is_exact(x * F(48, 16)) or not is_exact(x / 16):
                                 raise _Inexact()
-                elif v[0] == "s":
-                    v = ("s", v[1] * F(steps["g"], YEAR_NS))
                 else:
-                    v = ("v", [(i, x * F(steps["s"][i], YEAR_NS)) for i, x in v[1]])
+                    v = ref_rescale(v, steps)
         return v, tags, pre
 
     # ------------------------------------------------------------------ model
@@ -642,6 +749,11 @@ class C14(Prop):
             if rep.startswith("err"):
                 if rec["outcome"] == "ok":
                     dis.append(f"call {c}: impl ok, model {rep}")
+                elif rep.startswith("err raised:"):
+                    itrace = ["src" if t["tag"].startswith("src") else t["tag"] for t in rec["trace"]]
+                    mtrace = rep.split(" ")[2]
+                    if rec["outcome"] != "err:" + rep.split(" ")[1][7:] or itrace != ([] if mtrace == "-" else mtrace.split(",")):
+                        dis.append(f"call {c}: impl {rec['outcome']} after {itrace}, model {rep}")
                 continue
             if rep == "bad-op" or rec["outcome"] != "ok":
                 dis.append(f"call {c}: impl {rec['outcome']}, model {rep}")
@@ -704,11 +816,13 @@ class C14(Prop):
                 if rec["trace"]:
                     f.append({"sig": "no-source-ran-callables", "msg": f"{where}: {[t['tag'] for t in rec['trace']]}"})
                 continue
+            src = acts[(c["pipe"], p["src"]["tag"])]
+            post = src["post"]
+            if post == "rescale" and not c["skip"] and src["eff"].startswith("mark"):
+                continue    # a Python list as a rate: the code raises AttributeError (`list.index` exists, `list.mul` does not); not in the property
             if rec["outcome"] != "ok":
                 f.append({"sig": "call-raised", "msg": f"{where}: {rec['outcome']}"})
                 continue
-            src = acts[(c["pipe"], p["src"]["tag"])]
-            post = src["post"]
             want_tags = [p["src"]["tag"]] + [m["tag"] for m in p["mods"]] + (["post"] if post.startswith("c:") and not c["skip"] else [])
             tags = [t["tag"] for t in rec["trace"]]
             if tags != want_tags:
@@ -747,18 +861,15 @@ class C14(Prop):
                 if not val_eq(parse_val(pt["prev"]), pre_v, True) or pt["out"] != rec["value"]:
                     f.append({"sig": "post-processor-io", "msg": f"{where}: post-processor received {pt['prev']}, returned {pt['out']}; call returned {rec['value']}"})
             elif post == "rescale":
-                if pre_v[0] == "s":
-                    want = ("s", pre_v[1] * F(steps["g"], YEAR_NS))
-                else:
-                    want = ("v", [(i, x * F(steps["s"][i], YEAR_NS)) for i, x in pre_v[1]])
+                want = ref_rescale(pre_v, steps)
                 if not val_eq(got, want, exact):
                     f.append({"sig": "rescale-value", "msg": f"{where}: returned {rec['value']}; annual {pre_v} with steps {steps} should give {want}"})
             elif post == "union":
                 want = ref_union(pre_v[1])
                 if not val_eq(got, want, exact):
                     f.append({"sig": "union-value", "msg": f"{where}: returned {rec['value']}; 1 - prod(1 - p) of {pre_v[1]} is {want}"})
-                flat = [x for it in pre_v[1] for x in ([it[1]] if it[0] == "s" else [y for _, y in it[1]])]
-                res = [got[1]] if got[0] == "s" else [y for _, y in got[1]] if got[0] == "v" else []
+                flat = [x for it in pre_v[1] for _, x in cells(it)]
+                res = [y for _, y in cells(got)]
                 if all(0 <= x <= 1 for x in flat) and any(not (-TOL <= y <= 1 + TOL) for y in res):
                     f.append({"sig": "union-range", "msg": f"{where}: {rec['value']} leaves [0, 1]"})
             # the whole value, recomputed from the registered effects: m_n(args, ... m_1(args, src(args)))
@@ -795,7 +906,7 @@ class C14(Prop):
         for rec in obs["calls"]:
             c = case["calls"][rec["call"]]
             p = pipes.get(c["pipe"])
-            t.append("call:" + ("ok" if rec["outcome"] == "ok" else "rejected-no-source"))
+            t.append("call:" + ("ok" if rec["outcome"] == "ok" else "rejected-no-source" if not (p and p["src"]) else "raised:" + rec["outcome"][4:]))
             t.append("where:" + c["where"])
             if p and p["src"] is not None and rec["outcome"] == "ok":
                 src = acts[(c["pipe"], p["src"]["tag"])]
@@ -808,6 +919,12 @@ class C14(Prop):
                 t.append("index:" + ("none" if c["idx"] is None else "empty" if not c["idx"] else
                                      "permuted" if c["idx"] != sorted(c["idx"]) else "partial" if len(c["idx"]) < case["pop"] else "full"))
                 t.append("arg:" + ("keyword" if c["kw"] else "positional"))
+                shape = {"s": "number", "v": "series", "f": "frame", "a": "array", "l": "list"}.get(rec["value"][0], "?")
+                t.append("value:" + shape)
+                if src["post"] == "rescale" and not c["skip"]:
+                    t.append("rescale:" + shape)
+                    if shape == "frame" and c["idx"] and rec["col_ns"] and any(rec["col_ns"][i] != rec["gstep_ns"] for i in c["idx"]):
+                        t.append("rescale:frame:own-step-differs-from-global")
                 if src["post"] == "rescale" and not c["skip"] and c["idx"] and rec["col_ns"] and len({rec["col_ns"][i] for i in c["idx"]}) > 1:
                     t.append("rescale:simulants-with-different-steps")
                 if src["post"] == "rescale" and not c["skip"] and c["idx"] and rec["col_ns"] and any(rec["col_ns"][i] != rec["gstep_ns"] for i in c["idx"]):
